@@ -70,6 +70,36 @@ func validateJSONPatches(patches []byte) error {
 		if strings.HasPrefix(path, "/"+document.PublicKeyProperty) {
 			return fmt.Errorf("%s: cannot modify public keys", patch.JSONPatch)
 		}
+
+		// a move also removes the value at its 'from' location
+		if err := validateMoveFrom(p["op"], p["from"]); err != nil {
+			return err
+		}
+	}
+
+	return nil
+}
+
+func validateMoveFrom(opMsg, fromMsg *json.RawMessage) error {
+	if opMsg == nil || fromMsg == nil {
+		return nil
+	}
+
+	var op, from string
+	if err := json.Unmarshal(*opMsg, &op); err != nil || op != "move" {
+		return nil
+	}
+
+	if err := json.Unmarshal(*fromMsg, &from); err != nil {
+		return fmt.Errorf("%s: invalid from", patch.JSONPatch)
+	}
+
+	if strings.HasPrefix(from, "/"+document.ServiceProperty) {
+		return fmt.Errorf("%s: cannot modify services", patch.JSONPatch)
+	}
+
+	if strings.HasPrefix(from, "/"+document.PublicKeyProperty) {
+		return fmt.Errorf("%s: cannot modify public keys", patch.JSONPatch)
 	}
 
 	return nil
